@@ -203,7 +203,7 @@ PROPS = {
     ),
     "C15": dict(
         modules=["Whawty.Props.C15"],
-        suites=[("hdrv", "c15ro"), ("hdrv", "c15f"), ("hdrv", "c01")],
+        suites=[("hdrv", "c15ro"), ("hdrv", "c15f"), ("hdrv", "c15i"), ("hdrv", "c01")],
         level_text="Frame theorems (update preserves auxiliary data and every other entry byte for byte, set-admin moves "
                    "the node), protocol-level fault analysis of writeHashStr (every stop before the rename + deferred "
                    "cleanup leaves every name as it was, for all contents; pinned add leaves the reservation: D7). "
@@ -211,7 +211,10 @@ PROPS = {
                    "failure (strace fault injection) in every mutating operation, read-only calls under strace.",
         rule="(a) histories of C01 with auxiliary data of all shapes; (b) per mutating operation the baseline trace, "
              "then one re-run per (injectable call, errno in ENOSPC/EIO/EACCES/EMFILE) with strace -e inject; (c) "
-             "authenticate/exists/list/list-full/check under strace: no mutating event.",
+             "authenticate/exists/list/list-full/check under strace: no mutating event; (d) operations that fail because "
+             "another process completed an add / remove / set-admin / update of the same user between the existence "
+             "probe and the first mutating call (interfering hasher), or because the name is occupied by a dangling "
+             "symbolic link: the directory must be exactly as it was at that moment.",
         trusted=[T_FS, "strace fault injection lands on the intended call (verified per run by the INJECTED tag)", T_CRYPTO],
         partial=["failed_op_changes_nothing holds only up to the commit point: see known finding D10 (error-after-commit)"],
     ),
